@@ -88,3 +88,43 @@ def min_boundary_distance(weights, k: int) -> Fraction:
         if best is None or d < best:
             best = d
     return best if best is not None else Fraction(GRID)
+
+
+class Partition:
+    """Same decisions as exact_index / allowed_indices, precomputed in integers for bulk use
+    (cross-checked against the Fraction versions by selftest)."""
+
+    def __init__(self, weights):
+        from bisect import bisect_left, bisect_right
+
+        self._bl, self._br = bisect_left, bisect_right
+        self.w = list(weights)
+        self.n = len(self.w)
+        b = cum_shares(self.w)
+        self.b = b
+        self.ceil = []
+        for x in b:
+            v = x * GRID
+            self.ceil.append(int(-((-v.numerator) // v.denominator)))
+        self.exact_class = is_exact_class(self.w)
+
+    def exact(self, k):
+        return min(self._br(self.ceil, k, 1) - 1, self.n - 1)
+
+    def allowed(self, k):
+        if self.exact_class:
+            return {self.exact(k)}
+        hi = min(self._br(self.ceil, k + 1) - 1, self.n - 1)
+        lo = max(self._bl(self.ceil, k) - 1, 0)
+        return {i for i in range(lo, hi + 1) if self.w[i] > 0}
+
+    def span(self, i):
+        """grid points strictly inside group i: [ceil(b_i*2^32), ceil(b_(i+1)*2^32))"""
+        return self.ceil[i], self.ceil[i + 1]
+
+    def near_boundary(self, k, d=2):
+        j = self._bl(self.ceil, k)
+        for t in (j - 1, j, j + 1):
+            if 0 < t < self.n and abs(self.ceil[t] - k) <= d:
+                return True
+        return k <= d or k >= GRID - 1 - d
